@@ -15,7 +15,9 @@ against tests/scanner/*-expected.gir by vt/scan/c02_calib.py):
      depth 2 and the function-pointer-field host only for a representative subset of bases);
  (D) default ownership after a bare direction annotation ((out), (inout), (out caller-/
      callee-allocates), (in)) - the only way to reach the documented out/inout defaults;
- (A) every sequence (with repetition, hence every arrangement) over {callback, user-data
+ (A) every sequence (with repetition, hence every arrangement; plus the same slots spelled through local
+     typedefs of FooCb / GAsyncReadyCallback / GDestroyNotify (alias depth 1 and 2) / gpointer, up to length 3
+     quick / 4 thorough) over {callback, user-data
      gpointer, GDestroyNotify, ordinary parameter, GError**} up to length 4 (quick) / 5
      (thorough), the user-data parameter named user_data / data / foo_data / closure, the
      callback a local typedef or GAsyncReadyCallback, hosted by a function, a callback
@@ -54,7 +56,14 @@ PRELUDE = {
     'FooCb': lambda: [Callback('FooCb', 'void', [('int', 'x'), ('gpointer', 'user_data')])],
     'FooInt': lambda: [Typedef('FooInt', 'int')],
     'FooStr': lambda: [Typedef('FooStr', 'char *')],
+    # local typedefs of the role types used by the arrangement space (declared after their targets)
+    'FooCbAlias': lambda: [Typedef('FooCbAlias', 'FooCb')],
+    'FooReadyCb': lambda: [Typedef('FooReadyCb', 'GAsyncReadyCallback')],
+    'FooFreeFunc': lambda: [Typedef('FooFreeFunc', 'GDestroyNotify')],
+    'FooFreeFunc2': lambda: [Typedef('FooFreeFunc2', 'FooFreeFunc')],
+    'FooPtr': lambda: [Typedef('FooPtr', 'gpointer')],
 }
+ALIAS_MODES = ['D1', 'D2', 'K', 'U', 'K+D2+U']
 
 
 def prelude(names):
@@ -79,10 +88,21 @@ def case_needs(case):
         if case.get('pos') in ('mparam', 'mret') or case.get('host') == 'method':
             names.add('FooRec')
     else:
+        al = set(case.get('al', '').split('+')) - {''}
         if 'K' in case['seq'] and case['cb'] == 'C':
             names.add('FooCb')
+            if 'K' in al:
+                names.add('FooCbAlias')
         if 'K' in case['seq'] and case['cb'] == 'A':
             full = True
+            if 'K' in al:
+                names.add('FooReadyCb')
+        if 'D' in case['seq'] and ('D1' in al or 'D2' in al):
+            names.add('FooFreeFunc')
+            if 'D2' in al:
+                names.add('FooFreeFunc2')
+        if 'U' in case['seq'] and 'U' in al:
+            names.add('FooPtr')
         if case['host'] == 'method':
             names.add('FooRec')
     return names, (INCLUDES if full else INCLUDES[:1])
@@ -163,6 +183,24 @@ def arr_cases(tier):
                 for un in uns:
                     for h in hosts:
                         out.append({'kind': 'arr', 'seq': seq, 'cb': cb, 'uname': un, 'host': h})
+    # the same slots spelled through local typedefs ("typedef'd" spellings): destroy notify as
+    # typedef GDestroyNotify FooFreeFunc (and a typedef of that), callback as a typedef of the
+    # local callback / of GAsyncReadyCallback, user data as a typedef of gpointer
+    amax = 4 if tier == 'thorough' else 3
+    anames = UNAMES if tier == 'thorough' else ['user_data']
+    for n in range(1, amax + 1):
+        for seq in itertools.product('KUDOE', repeat=n):
+            seq = ''.join(seq)
+            for al in ALIAS_MODES:
+                slots = set(x[0] for x in al.split('+'))
+                if not all(x in seq for x in slots):
+                    continue
+                cbs = ['C', 'A'] if 'K' in seq else ['C']
+                uns = anames if 'U' in seq else ['user_data']
+                for cb in cbs:
+                    for un in uns:
+                        for h in hosts:
+                            out.append({'kind': 'arr', 'seq': seq, 'cb': cb, 'uname': un, 'host': h, 'al': al})
     return out
 
 
@@ -238,6 +276,14 @@ def build(case):
     return number(decls), comments, npre
 
 
+def role_type(case, r):
+    """-> (C spelling, expected GI name, plain?) of the slot r under the case's alias mode"""
+    for a in case.get('al', '').split('+'):
+        if (r, a) in M.ROLE_ALIASES:
+            return M.ROLE_ALIASES[(r, a)] + (False,)
+    return M.ROLE_TYPES[r] + (True,)
+
+
 def arr_params(case):
     roles = [case['cb'] if r == 'K' else r for r in case['seq']]
     seen = {}
@@ -255,7 +301,7 @@ def arr_params(case):
             nm = 'x' if n == 0 else 'x%d' % n
         else:
             nm = 'error' if n == 0 else 'error%d' % n
-        params.append((M.ROLE_TYPES[r][0], nm))
+        params.append((role_type(case, r)[0], nm))
         names.append(nm)
     return params, roles, names
 
@@ -457,7 +503,8 @@ def judge_dir(case, host, j):
 
 def judge_arr(case, host, j):
     params, roles, names = arr_params(case)
-    exp = M.arrangement_expect(roles, names)
+    plain_u = [role_type(case, r)[2] for r in roles]
+    exp = M.arrangement_expect(roles, names, plain_u)
     inst, ps = params_of(host)
     j.eq('throws', exp['throws'], host.get('throws'))
     if case['host'] == 'method':
@@ -478,8 +525,9 @@ def judge_arr(case, host, j):
     for idx, (i, p) in enumerate(zip(kept, ps)):
         r = roles[i]
         tf = tel_facts(p.type_el())
-        j.eq('param %d (%s):type name' % (idx, names[i]), M.ROLE_TYPES[r][1], tf and tf['name'])
-        j.eq('param %d (%s):c:type' % (idx, names[i]), M.ctokens(M.ROLE_TYPES[r][0]), M.ctokens(tf and tf['ctype']))
+        cspell, giname, plain = role_type(case, r)
+        j.eq('param %d (%s):type name' % (idx, names[i]), giname, tf and tf['name'])
+        j.eq('param %d (%s):c:type' % (idx, names[i]), M.ctokens(cspell), M.ctokens(tf and tf['ctype']))
         j.eq('param %d (%s):transfer-ownership' % (idx, names[i]), 'none', p.get('transfer-ownership'))
         j.eq('param %d (%s):direction' % (idx, names[i]), ABSENT,
              None if p.get('direction') in (None, 'in') else p.get('direction'))
@@ -504,7 +552,8 @@ def judge_arr(case, host, j):
                 j.eq('param %d (%s):scope with destroy' % (idx, names[i]),
                      None if r == 'A' else 'notified', sc)
         elif r == 'U':
-            j.eq('param %d (%s):nullable' % (idx, names[i]), '1', p.get('nullable'))
+            # a typedef of gpointer: whether it still counts as an untyped pointer is not fixed
+            j.eq('param %d (%s):nullable' % (idx, names[i]), '1' if plain else None, p.get('nullable'))
             j.eq('param %d (%s):destroy' % (idx, names[i]), ABSENT, de)
             j.eq('param %d (%s):scope' % (idx, names[i]), ABSENT, sc)
             if case['host'] == 'func' or case['host'] == 'method':
@@ -528,7 +577,8 @@ def case_key(case):
         return 'type:%s@%s' % (Sp.from_json(case['sp']).c(), case['pos'])
     if k == 'dir':
         return 'dir:%s (%s)@%s' % (Sp.from_json(case['sp']).c(), case['ann'], case['host'])
-    return 'arr:%s/%s/%s@%s' % (case['seq'] or '-', case['cb'], case['uname'], case['host'])
+    return 'arr:%s/%s/%s@%s%s' % (case['seq'] or '-', case['cb'], case['uname'], case['host'],
+                                  ('/typedef=' + case['al']) if case.get('al') else '')
 
 
 def viol_key(case, aspect, expected, got):
